@@ -117,6 +117,9 @@ ChooseFunc == /\ phase = "start" /\ "reject" \in Kinds /\ kind' = "function" /\ 
 Totals == << "select name from . order by sqrt(size - 50)", "select name from . order by 0 * size / 0, name", "select name from . order by ln(0 - size) desc",
              "select name, size / 0 from . order by size / 0", "select count(*) from . group by sqrt(size - 50)", "select name from . where sqrt(0 - size) > 1",
              "select max(sqrt(size - 50)), min(ln(0 - size)), avg(size / 0) from .", "select name from . order by size / 0 limit 1",
+             "select name from . where modified > '+100000000'", "select name from . where modified < '-99999999999'", "select name from . where modified = +1000",
+             "select name from . where modified >= '-9223372036854775807'", "select ext, count(*) from . group by 0", "select ext, count(*) from . group by ext, 0",
+             "select ext, count(*) from . group by 00", "select count(*) from . group by 1", "select name from . order by 00", "select name from . limit 0 into json",
              "select name from 'sub/[' depth 1 rx", "select name from '[a' maxdepth 2 regexp", "select name from 's*(' depth 1 rx",
              "select name from . order by -{size + 1}", "select -{size + 1}, +{size} from .", "select name from . where size > -{1 - 3}" >>
 ChooseTotal == /\ phase = "start" /\ "reject" \in Kinds /\ kind' = "query" /\ phase' = "done"
